@@ -321,7 +321,7 @@ class C20(PropBase):
                 "printer call is an io error after a streamed prefix or after the complete primary report (c20_dirty_failure_exactly_known_d, "
                 "c20_known_d_reading, c20_known_d_status) - the check accepts a violation as known only if this classifier, run by the extracted "
                 "model on the case, says so; from the argument vector to the HTTP symbol supplier incl. --symbols-cache / --symbols-tmp / "
-                "--symbols-download-timeout-secs and their defaults (c20_argv_http_arguments, c20_argv_supplier). The built minidump-stackwalk binary is run over the option matrix x inputs "
+                "--symbols-download-timeout-secs and their defaults (c20_argv_http_arguments, c20_argv_supplier, c20_tokens_to_supplier). The built minidump-stackwalk binary is run over the option matrix x inputs "
                 "(testdata, synthesized, mutated, truncated, missing, empty, directory) and compared byte for byte with the "
                 "library called in-process (print / print_brief / print_json / the dump printers) and with the model's "
                 "prediction; every --dump report is cut into the texts of the library's individual printers (each called on its own "
